@@ -288,3 +288,160 @@ def join_pair(rnd):
     if rnd.random() < 0.5:
         old = matcher.join(one(), old)
     return (new, old)
+
+
+# ---- matcher layer generators (C05 / C18)
+_NAMES = ['wl_surface', 'wl_display', 'wl_callback', 'xdg_surface', 'xdg_popup', 'wl_pointer']
+_STRS = ['', '*', 'wl_*', 'xdg_*', '*face', 'wl_surface', 'commit', 'x', 'y', 'pressed', 'buffer', 'a*b*', 'unknown', 'A', 'B']
+
+
+def str_leaf(rnd):
+    from core import matcher
+    return matcher.str_matcher(rnd.choice(_STRS)) if rnd.random() < 0.85 else matcher.AlwaysMatcher(rnd.random() < 0.5)
+
+
+def value_matcher(rnd, kind):
+    from core import matcher
+    if kind == 'int':
+        w = rnd.choice([matcher.AlwaysMatcher(True), matcher.EqMatcher(rnd.randint(-1, 9)), matcher.EqMatcher(0)])
+        return matcher.IntArgValueMatcher(w)
+    if kind == 'float':
+        return matcher.FloatArgValueMatcher(matcher.EqMatcher(rnd.choice([0.0, 1.5, -2.25, 3.0])))
+    if kind == 'string':
+        return matcher.StringArgValueMatcher(matcher.EqMatcher(rnd.choice(['', 'a', 'x, y', 'wl_surface@5'])))
+    if kind == 'label':
+        return matcher.LabelIntArgValueMatcher(str_leaf(rnd))
+    return matcher.ObjectArgValueMatcher(obj_matcher(rnd))
+
+
+def obj_matcher(rnd):
+    from core import matcher
+    r = rnd.random()
+    if r < 0.2:
+        return matcher.AlwaysMatcher(True)
+    if r < 0.6:
+        return matcher.ObjectNameMatcher(str_leaf(rnd))
+    gen_m = matcher.AlwaysMatcher(True) if rnd.random() < 0.5 else matcher.EqMatcher(rnd.randint(0, 2))
+    return matcher.ObjectIdMatcher(matcher.PairMatcher(matcher.EqMatcher(rnd.randint(0, 7)), '', gen_m))
+
+
+def arg_matcher(rnd):
+    from core import matcher
+    name = matcher.AlwaysMatcher(True) if rnd.random() < 0.5 else str_leaf(rnd)
+    return matcher.ArgMatcher(name, value_matcher(rnd, rnd.choice(['int', 'float', 'string', 'label', 'obj'])))
+
+
+def args_matcher_list(rnd):
+    from core import matcher
+    return matcher.ArgsMatcherList([arg_matcher(rnd) for _ in range(rnd.randint(0, 3))], [arg_matcher(rnd) for _ in range(rnd.randint(0, 2))])
+
+
+def message_pattern(rnd):
+    from core import matcher
+    conn = matcher.ConnectionMatcher(rnd.choice([matcher.AlwaysMatcher(True), matcher.EqMatcher('A'), matcher.EqMatcher('unknown'), matcher.EqMatcher('B')]))
+    name = rnd.choice([matcher.AlwaysMatcher(True), matcher.EqMatcher('new'), matcher.EqMatcher('destroyed'), matcher.EqMatcher('commit'), str_leaf(rnd)])
+    args = rnd.choice([matcher.AlwaysMatcher(True), matcher.AlwaysMatcher(True), args_matcher_list(rnd)])
+    return matcher.MessagePattern(conn, obj_matcher(rnd), name, args)
+
+
+def any_arg(rnd):
+    from core import wl
+    r = rnd.random()
+    if r < 0.2:
+        a = wl.Arg.Int(rnd.randint(-1, 9))
+        if rnd.random() < 0.5:
+            a.labels = [rnd.choice(['pressed', 'x', 'wl_surface', 'released']) for _ in range(rnd.randint(0, 3))]
+    elif r < 0.35:
+        a = wl.Arg.Float(rnd.choice([0.0, 1.5, -2.25, 3.0, 7.0]))
+    elif r < 0.5:
+        a = wl.Arg.String(rnd.choice(['', 'a', 'x, y', 'wl_surface@5']))
+    elif r < 0.7:
+        o = wl.object.MockObject(id=rnd.randint(0, 7), generation=rnd.choice([0, 1, 2]), type=rnd.choice(_NAMES + [None]))
+        if rnd.random() < 0.3:
+            o.generation = None
+        a = wl.Arg.Object(o, rnd.random() < 0.4)
+    elif r < 0.8:
+        a = wl.Arg.Null(rnd.choice([None, 'wl_surface', 'xdg_popup']))
+    elif r < 0.9:
+        a = wl.Arg.Fd(rnd.randint(3, 9))
+    elif r < 0.95:
+        a = wl.Arg.Array(None)
+    else:
+        a = wl.Arg.Unknown('?')
+    if rnd.random() < 0.6:
+        a.name = rnd.choice(['x', 'y', 'buffer', 'id', 'surface'])
+    return a
+
+
+class _Conn:
+    def __init__(self, n): self._n = n
+    def name(self): return self._n
+
+
+def rich_message(rnd):
+    """a resolved-looking message: target object with id/generation/type/connection, args of every kind, sometimes a destroyed object"""
+    from core import wl
+    from core.connection_impl import ConnectionImpl
+    conn = rnd.choice([None, 'A', 'B'])
+    c = None
+    if conn is not None:
+        c = ConnectionImpl(0.0, conn, None)
+    tgt = wl.object.MockObject(conn=c, id=rnd.randint(1, 7), generation=rnd.choice([0, 1, 2]), type=rnd.choice(_NAMES + [None]))
+    m = wl.Message(rnd.choice([0.0, 1.5]), tgt, rnd.random() < 0.5, rnd.choice(['commit', 'new', 'destroyed', 'motion', 'delete_id', 'x']),
+                   tuple(any_arg(rnd) for _ in range(rnd.randint(0, 4))))
+    if rnd.random() < 0.3:
+        m.destroyed_obj = wl.object.MockObject(conn=c, id=rnd.randint(1, 7), generation=rnd.choice([0, 1]), type=rnd.choice(_NAMES))
+    return m
+
+
+def eq_case(rnd):
+    from core import matcher
+    k = rnd.random()
+    if k < 0.4:
+        return (matcher.EqMatcher(rnd.randint(-2, 5)), rnd.choice([rnd.randint(-2, 5), 1.0, 'a']))
+    if k < 0.7:
+        return (matcher.EqMatcher(rnd.choice(['a', '', 'wl_surface'])), rnd.choice(['a', '', 'wl_surface', 'A', 0]))
+    return (matcher.EqMatcher(rnd.choice([0.0, 1.5, -2.25])), rnd.choice([0.0, 1.5, -2.25, 1, 0]))
+
+
+def wildcard_case(rnd):
+    from core import matcher
+    alpha = 'ab*_.x'
+    pat = ''.join(rnd.choice(alpha) for _ in range(rnd.randint(0, 6)))
+    if '*' not in pat:
+        pat = pat[:rnd.randint(0, len(pat))] + '*' + pat
+    text = ''.join(rnd.choice('abx_.*(') for _ in range(rnd.randint(0, 7)))
+    if rnd.random() < 0.4:
+        # make a hit likely: substitute each star by some run
+        text = ''.join(ch if ch != '*' else ''.join(rnd.choice('abx_.') for _ in range(rnd.randint(0, 3))) for ch in pat)
+    return (matcher.WildcardMatcher(pat), text)
+
+
+def pair_case(rnd):
+    from core import matcher
+    a = arg_matcher(rnd)
+    arg = any_arg(rnd)
+    return (a.wrapped, (arg.name if arg.name is not None else '', arg))
+
+
+def _mock(rnd):
+    from core import wl
+    o = wl.object.MockObject(id=rnd.randint(0, 7), generation=rnd.choice([0, 1, 2]), type=rnd.choice(_NAMES + [None]))
+    if rnd.random() < 0.3:
+        o.generation = None
+    return o
+
+
+def obj_case(rnd, kind):
+    from core import matcher
+    if kind == 'name':
+        return (matcher.ObjectNameMatcher(str_leaf(rnd)), _mock(rnd))
+    gen_m = matcher.AlwaysMatcher(True) if rnd.random() < 0.4 else matcher.EqMatcher(rnd.randint(0, 2))
+    return (matcher.ObjectIdMatcher(matcher.PairMatcher(matcher.EqMatcher(rnd.randint(0, 7)), '', gen_m)), _mock(rnd))
+
+
+def conn_case(rnd):
+    from core import matcher
+    from core.connection_impl import ConnectionImpl
+    m = matcher.ConnectionMatcher(rnd.choice([matcher.AlwaysMatcher(True), matcher.EqMatcher('A'), matcher.EqMatcher('unknown'), matcher.EqMatcher(''), str_leaf(rnd)]))
+    return (m, rnd.choice([None, None, ConnectionImpl(0.0, 'A', None), ConnectionImpl(0.0, 'B', True)]))
